@@ -303,8 +303,40 @@ fn check_large(ctx: &mut Ctx, kind: &str, n: usize) {
             enable_all(&mut bv);
             check_large_value(ctx, kind, n, &bv)
         }
+        // Values reached by a conversion: a plain bitvector made from a multiset sparse vector (duplicates,
+        // also more values than positions) is a BitVector like any other. `n` indexes `multisets()`; odd
+        // numbers enable the support structures first.
+        "BitVector(From multiset)" => {
+            let (universe, values) = multisets().swap_remove(n / 2);
+            let ms = catalogue::sparse_multiset(universe, &values);
+            let mut bv = BitVector::from(ms);
+            if n % 2 == 1 {
+                enable_all(&mut bv);
+            }
+            check_large_value(ctx, kind, n, &bv)
+        }
         _ => panic!("replay: not a C06 case"),
     }
+}
+
+/// Every non-decreasing list of up to 2u + 1 values below u, for universes u = 1..=3.
+fn multisets() -> Vec<(usize, Vec<usize>)> {
+    fn rec(u: usize, max_len: usize, cur: &mut Vec<usize>, out: &mut Vec<(usize, Vec<usize>)>) {
+        out.push((u, cur.clone()));
+        if cur.len() == max_len {
+            return;
+        }
+        for v in cur.last().copied().unwrap_or(0)..u {
+            cur.push(v);
+            rec(u, max_len, cur, out);
+            cur.pop();
+        }
+    }
+    let mut out = Vec::new();
+    for u in 1..=3 {
+        rec(u, 2 * u + 1, &mut Vec::new(), &mut out);
+    }
+    out
 }
 
 /// Sizes around the piece sizes a loader might use (1 MiB, 2^20 items, 8 MiB).
@@ -327,6 +359,12 @@ fn explore(ctx: &mut Ctx) {
     small_wm_scope(ctx);
     if ctx.mine_index(0) {
         size_by_params(ctx);
+    }
+    for n in 0..2 * multisets().len() {
+        if ctx.mine_index(5000 + n as u64) {
+            ctx.count("converted_multiset_values", 1);
+            check_large(ctx, "BitVector(From multiset)", n);
+        }
     }
     for (k, (kind, n)) in large_values().into_iter().enumerate() {
         if ctx.mine_index(1000 + k as u64) {
